@@ -26,15 +26,11 @@ func init() {
 	})
 }
 
-// hdrFieldEqParam builds a matcher "hdr.<field> == captured parameter whose
-// name contains want" for a filter closure.
-func hdrFieldEqParam(hdrField *types.Var, want string) core.EdgeMatcher {
+// hdrFieldEqParam builds a matcher "hdr.<field> == the k-th id parameter of
+// the API method" (k: 0 service, 1 object, 2 action).
+func hdrFieldEqParam(hdrField *types.Var, api *ssa.Function, k int, subst map[*ssa.Parameter]ssa.Value) core.EdgeMatcher {
 	isField := func(v ssa.Value) bool { return isFieldOf(v, hdrField) }
-	isParam := func(v ssa.Value) bool {
-		p, ok := core.Canon(v).(*ssa.Parameter)
-		return ok && strings.Contains(strings.ToLower(p.Name()), want)
-	}
-	return core.Eq(isField, isParam)
+	return core.Eq(isField, apiParam(api, k, subst))
 }
 
 // matchedReturns returns the returns of a filter that may yield matched=true.
@@ -69,26 +65,27 @@ func runC13(c *core.Ctx) {
 		c.Undecided("C13.select", "bus.client.Subscribe", token.NoPos, "anchor not found")
 	} else {
 		var filter *ssa.Function
+		var subst map[*ssa.Parameter]ssa.Value
 		for _, s := range handlerSites(c, a) {
 			root := s.fn
 			for root.Parent() != nil {
 				root = root.Parent()
 			}
 			if root == sub {
-				filter, _ = funcValue(s.filter)
+				filter, subst, _ = funcValueCtx(s.filter)
 			}
 		}
 		if filter == nil {
 			c.Fail("C13.select", "bus.client.Subscribe/filter", sub.Pos(), "Subscribe registers no filter")
 		} else {
-			for _, fe := range []struct {
+			for k, fe := range []struct {
 				f    *types.Var
 				want string
 			}{{svcF, "service"}, {objF, "object"}, {actF, "action"}} {
 				ok := true
 				rs := matchedReturns(filter)
 				for _, r := range rs {
-					if !core.Guarded(filter, r, hdrFieldEqParam(fe.f, fe.want)) {
+					if !core.Guarded(filter, r, hdrFieldEqParam(fe.f, sub, k, subst)) {
 						ok = false
 					}
 				}
@@ -125,19 +122,47 @@ func ruleUpdateSignalSelects(c *core.Ctx) {
 	isUserSig := func(v ssa.Value) bool { return isFieldOf(v, sigID) }
 	isParam := func(v ssa.Value) bool { return core.Canon(v) == idp }
 	eq := core.Eq(isUserSig, isParam)
-	// every append of a signalUser to the selection is guarded
+	// every append of a signalUser to the selection is guarded; the selection may
+	// be made by a helper that is given the signal id
 	n := 0
 	ok := true
-	for _, b := range fn.Blocks {
-		for _, in := range b.Instrs {
-			call, isCall := in.(*ssa.Call)
-			if !isCall {
-				continue
+	for _, f := range unitOf(c, fn) {
+		f := f
+		eqf := eq
+		if f != fn {
+			// parameters of the helper that receive UpdateSignal's signal id at every call from it
+			bound := map[*ssa.Parameter]bool{}
+			for i, p := range f.Params {
+				all, any := true, false
+				for _, call := range core.Calls(fn) {
+					if core.IsCallTo(call, f) && i < len(call.Common().Args) {
+						any = true
+						if !core.SameValue(call.Common().Args[i], idp) {
+							all = false
+						}
+					}
+				}
+				bound[p] = all && any
 			}
-			if bi, isB := call.Call.Value.(*ssa.Builtin); isB && bi.Name() == "append" {
-				n++
-				if !core.Guarded(fn, call, eq) {
-					ok = false
+			eqf = core.Eq(isUserSig, func(v ssa.Value) bool {
+				p, ok := core.Canon(v).(*ssa.Parameter)
+				return ok && bound[p]
+			})
+		}
+		for _, b := range f.Blocks {
+			for _, in := range b.Instrs {
+				call, isCall := in.(*ssa.Call)
+				if !isCall {
+					continue
+				}
+				if bi, isB := call.Call.Value.(*ssa.Builtin); isB && bi.Name() == "append" {
+					if f != fn && !core.TypeIs(sliceElem(call.Type()), "bus", "signalUser") {
+						continue
+					}
+					n++
+					if !core.Guarded(f, call, eqf) {
+						ok = false
+					}
 				}
 			}
 		}
@@ -508,4 +533,11 @@ func hasSubscribeCall(fn *ssa.Function) bool {
 		}
 	}
 	return false
+}
+
+func sliceElem(t types.Type) types.Type {
+	if sl, ok := t.Underlying().(*types.Slice); ok {
+		return sl.Elem()
+	}
+	return t
 }
